@@ -49,7 +49,7 @@ static void part_whole(const std::vector<unsigned>& ns) {
 
 static void part_poly(const std::vector<unsigned>& ns, int lattice) {
     std::vector<float> fr; for (int j = 0; j < lattice; j++) fr.push_back((float)j / lattice);
-    const float extra[] = {5.9604645e-8f, 1e-6f, 0.99999994f, 0.999999f, 0.333333343f, 0.707106769f};
+    const float extra[] = {5.9604645e-8f, 1e-6f, 0.99999994f, 0.999999f, 0.333333343f, 0.707106769f, 3e-4f, 5e-3f, 0.9995f, 0.995f};
     for (float e : extra) fr.push_back(e);
     for (unsigned n : ns) for (unsigned it = 1; it <= 4; it++) for (int yaxis = 0; yaxis < 2; yaxis++) for (int k = -2; k <= 2; k++) for (size_t fi = 0; fi < fr.size(); fi++) {
         std::string kase = mcx::Desc()("part", "poly")("n", n)("it", it)("axis", yaxis ? "y" : "x")("k", k)("fi", fi).str();
@@ -83,7 +83,7 @@ static void part_poly(const std::vector<unsigned>& ns, int lattice) {
             R.maxnum("worst_poly_error_over_tol", worst);
         }
     }
-    R.bound_done("poly: n x it x axis x k{-2..2} x dyadic lattice of " + std::to_string(lattice) + " fractions (+6 extreme) x monomials of degree < it");
+    R.bound_done("poly: n x it x axis x k{-2..2} x dyadic lattice of " + std::to_string(lattice) + " fractions (+10 extreme or small) x monomials of degree < it");
 }
 
 static void part_rot(const std::vector<unsigned>& ns, const std::vector<float>& angles) {
